@@ -106,6 +106,16 @@ Definition global_env (b : bag) (le : lazeenv) (builder : nat) (bctx : context) 
   let g2 := reserved_env b builder ms relpath g1 in
   match cli_env with Some ce => merge g2 ce | None => g2 end.
 
+(* the object file of a source, generate.rs:866-884: shareable rules put the hash of
+   (named rule) xor (order-only deps) into the extension; non-shareable rules use a directory
+   private to builder and app *)
+Definition object_ext (shareable : bool) (h : N) (rout : str) : str :=
+  if shareable then show_dec h ++ ch_dot :: rout else rout.
+Definition object_path (objdir builder_name binary_name : str) (shareable : bool) (srcpath : str)
+           (h : N) (rout : str) : str :=
+  path_push (if shareable then objdir else path_push (path_push objdir builder_name) binary_name)
+            (with_extension srcpath (object_ext shareable h rout)).
+
 Section Gen.
   Variable H : list ascii -> N.              (* DefaultHasher *)
   Variable EV : str -> evr.           (* evalexpr *)
@@ -160,11 +170,8 @@ Section Gen.
                          | _, _ => Err e_no_rule end
            | None => Err e_no_rule end) (fun '(rule, nrule) =>
     rbind (match r_out rule with Some o => Ok o | None => Err e_rule_no_out end) (fun rout =>
-    let rule_h := rule_hash H nrule in
-    let out_ext := if r_shareable rule then show_dec (N.lxor rule_h deps_hash) ++ ch_dot :: rout else rout in
-    let out := with_extension srcpath out_ext in
-    let object := path_push (if r_shareable rule then objdir
-                             else path_push (path_push objdir builder_name) binary_name) out in
+    let object := object_path objdir builder_name binary_name (r_shareable rule) srcpath
+                              (N.lxor (rule_hash H nrule) deps_hash) rout in
     let b := {| nb_rule := nr_name nrule; nb_inputs := Some [srcpath]; nb_outs := [object];
                 nb_deps := option_map sort_paths combined; nb_env := None; nb_always := nr_always nrule |} in
     let st1 := add_object object (add_entry (SBuild b) st) in
@@ -410,15 +417,29 @@ Section Gen.
 
   Record gen_result := { gr_stmts : list stmt; gr_file : str; gr_builds : list build_info; gr_nobuilds : list (str * str * nobuild) }.
 
-  (* Generator::execute after loading: [keep] is the partitioner's filter on (builder, app) *)
+  (* --partition: count:M/N keeps the tuples at positions i with i mod N = M-1 (a counter that
+     advances on every tuple); hash:M/N keeps by a hash of builder name ++ app name *)
+  Inductive partition := PNone | PCount (m n : nat) | PHash (keep : str -> bool).
+  Fixpoint count_filter {A} (m n i : nat) (l : list A) : list A :=
+    match l with
+    | [] => []
+    | x :: t => (if Nat.eqb (Nat.modulo i n) (m - 1) then [x] else []) ++ count_filter m n (S i) t
+    end.
+  Definition part_filter (b : bag) (p : partition) (tuples : list (nat * module)) : list (nat * module) :=
+    match p with
+    | PNone => tuples
+    | PCount m n => count_filter m n 0 tuples
+    | PHash keep => filter (fun bm => match bag_get b (fst bm) with
+                                      | Some c => keep (c_name c ++ m_name (snd bm)) | None => false end) tuples
+    end.
+
+  (* Generator::execute after loading *)
   Definition generate (b : bag) (le : lazeenv) (bsel asel : selector) (local : option str)
-             (keep : str -> str -> bool)
+             (part : partition)
              (select : list dep) (disable : list str) (cli_env : option env) : res gen_result :=
     rbind (selected_builders b bsel) (fun bs =>
     rbind (selected_bins b asel local) (fun bins =>
-    let tuples := filter (fun bm => match bag_get b (fst bm) with
-                                    | Some c => keep (c_name c) (m_name (snd bm)) | None => false end)
-                         (pairs bs bins) in
+    let tuples := part_filter b part (pairs bs bins) in
     rbind (rmapM (fun bm => rmap (fun r => (bm, r)) (configure_build b le (fst bm) (snd bm) select disable cli_env)) tuples) (fun results =>
     let entries := fold_left (fun acc r => match snd r with
                                            | Built _ es => fold_left (fun a e => sset_insert e a) es acc
